@@ -405,7 +405,7 @@ impl Prop for C05 {
         Mode::Children
     }
     fn n_cases(&self, tier: Tier) -> u64 {
-        tier.pick(20_000, 1_000_000)
+        tier.pick(200_000, 1_000_000)
     }
     fn time_cap_s(&self, tier: Tier) -> u64 {
         tier.pick(100, 900)
